@@ -285,6 +285,9 @@ fn scenarios(thorough: bool) -> Vec<Scn> {
     ];
     v.push(Scn { name: "local application stops reading: local writes stay Pending", local_out: 5, peer: vec![p(b"\xb1\xb2"), p(b"\xb3")], peer_rwnd: 4, lazy_ack: false, stuck: "write", chunk: 0 });
     v.push(Scn { name: "local application stops reading: local flush stays Pending", local_out: 5, peer: vec![p(b"\xb1\xb2"), p(b"\xb3")], peer_rwnd: 4, lazy_ack: false, stuck: "flush", chunk: 0 });
+    // a Push frame without data among the peer's frames (well-formed; older senders emit it for a zero-length write):
+    // it carries no bytes and is not the end of the stream
+    v.push(Scn { name: "peer sends an empty Push between data", local_out: 2, peer: vec![p(b"\xb1\xb2"), p(b""), p(b"\xb3"), PeerEv::Finish], peer_rwnd: 4, lazy_ack: false, stuck: "", chunk: 0 });
     // a fast local producer: three 50 000-byte reads are ready at once (frame size limits, per-frame credit)
     v.push(Scn { name: "fast local producer, 150 000 B ready at once, window 1", local_out: 150_000, peer: vec![PeerEv::Finish], peer_rwnd: 1, lazy_ack: true, stuck: "", chunk: 50_000 });
     if thorough {
